@@ -38,6 +38,9 @@ mutual
     | chol r =>
       have := shape_mulConst S r (S.sqrt c)
       simp only [mulConst]; split_ifs <;> simp [rows, cols, this]
+    | cholU r =>
+      have := shape_mulConst S r (S.sqrt c)
+      simp only [mulConst]; split_ifs <;> simp [rows, cols, this]
     | mul a b =>
       have := shape_mulConst S a c
       simp only [mulConst]; split_ifs <;> simp [rows, cols, rows_mkMul, cols_mkMul, this]
@@ -87,6 +90,12 @@ mutual
       simp only [mulConst]; split_ifs with hp
       · simp only [denote, (shape_mulConst S r (S.sqrt c)).2]
         exact root_scale _ _ _ _ _ (hS c hp) (fun i k => mulConst_refines S hS r (S.sqrt c) i k) i j
+      · simp [denote, mul_comm]
+    | cholU r =>
+      simp only [mulConst]; split_ifs with hp
+      · simp only [denote, (shape_mulConst S r (S.sqrt c)).1]
+        exact root_scale _ (fun i k => r.denote k i) (fun i k => (mulConst S r (S.sqrt c)).denote k i) _ _ (hS c hp)
+          (fun i k => mulConst_refines S hS r (S.sqrt c) k i) i j
       · simp [denote, mul_comm]
     | mul a b =>
       simp only [mulConst]; split_ifs
